@@ -1,0 +1,18 @@
+//go:build !verif
+
+// Package verifhook holds instrumentation points for external verification
+// harnesses. Without the `verif` build tag every function is an empty,
+// inlinable no-op, so production builds are unaffected.
+package verifhook
+
+// Enabled reports whether the hooks are compiled in.
+const Enabled = false
+
+// Event reports an observable step (kind plus up to four attributes).
+func Event(_ string, _, _, _, _ string) {}
+
+// Yield marks a point where a harness may hold the calling goroutine.
+func Yield(_ string, _ string) {}
+
+// Fault lets a harness inject an error at a named point.
+func Fault(_ string, _ string) error { return nil }
